@@ -361,6 +361,84 @@ def _use_chunk(args):
     return out
 
 
+# ----------------------------------------------------------------------------- E. callable values with different arity windows
+WIN_FUNCS = {   # name: (tag, n params, defaults of the trailing optional parameters)
+    'wn0': (1, 2, ()), 'wn1': (2, 2, (7,)), 'wn2': (3, 2, (5, 7)), 'wm1': (4, 1, ()), 'wm1o': (5, 1, (3,)), 'wl0': (6, 2, ()), 'wl1': (7, 2, (7,)), 'wk1': (8, 1, ())}
+WIN_DECLS = ('fn wn0(a: int, b: int)->int{ 1000 + a + 10 * b }\nfn wn1(a: int, b: int ?= 7)->int{ 2000 + a + 10 * b }\nfn wn2(a: int ?= 5, b: int ?= 7)->int{ 3000 + a + 10 * b }\n'
+             'fn wm1(a: int)->int{ 4000 + a }\nfn wm1o(a: int ?= 3)->int{ 5000 + a }\nlet wl0 = (a: int, b: int)->{ 6000 + a + 10 * b };\nlet wl1 = (a: int, b: int ?= 7)->{ 7000 + a + 10 * b };\n'
+             'let wk1 = (a: int)->{ 8000 + a };\nfn wpick<T>(a: T, b: T, c: bool)->T{ if(c, a, b) }\n')
+
+
+def win_value(name, args):
+    tag, n, dfl = WIN_FUNCS[name]
+    if not (n - len(dfl) <= len(args) <= n):
+        return None
+    full = list(args) + list(dfl[len(dfl) - (n - len(args)):]) if len(args) < n else list(args)
+    a = full[0]
+    b = full[1] if n > 1 else 0
+    return tag * 1000 + a + 10 * b
+
+
+def window_programs(tier):
+    """two callable values meet at a position that gives them one static type; the selected one is called with 0..3 arguments.
+    (label, text, binding, the function actually called, the arguments)"""
+    srcs = ['wn0', 'wn1', 'wn2', 'wm1', 'wm1o', 'wl0', 'wl1', 'wk1', 'cb2', 'cb1']
+    a2s = ['wn0', 'wn1', 'wn2', 'wl0', 'wl1']
+    a1s = ['wm1', 'wm1o', 'wn1', 'wn2', 'wk1']
+    meets = [('array', lambda x, y, i: '[%s, %s][%d]' % (x, y, i)), ('if', lambda x, y, i: 'if(c%d, %s, %s)' % (i, y, x)), ('generic', lambda x, y, i: 'wpick(%s, %s, c%d)' % (y, x, i)),
+             ('optional', lambda x, y, i: ('some(%s).value_or(%s)' % (x, y)) if i == 0 else ('wnone(%s).value_or(%s)' % (x, y))),
+             ('tuple', lambda x, y, i: '[(%s, 1), (%s, 2)][%d]::item0' % (x, y, i)), ('push', lambda x, y, i: '[%s].push(%s)[%d]' % (x, y, i))]
+    if tier == 'quick':
+        meets = meets[:3] + meets[4:5]
+    out = []
+    n = 0
+    for x in srcs:
+        for y in srcs:
+            for A2 in (a2s if 'cb2' in (x, y) else [None]):
+                for A1 in (a1s if 'cb1' in (x, y) else [None]):
+                    for mname, mk in meets:
+                        for i in (0, 1):
+                            sel = (x, y)[i]
+                            actual = {'cb2': A2, 'cb1': A1}.get(sel, sel)
+                            for args in ((), (1,), (1, 2), (1, 2, 3)):
+                                n += 1
+                                e = '(%s)(%s)' % (mk(x, y, i), ', '.join(map(str, args)))
+                                text = 'fn wh%d(cb2: (int, int)->(int), cb1: (int)->(int), c0: bool, c1: bool)->int{ %s } let wr%d = wh%d(%s, %s, false, true);' % (
+                                    n, e, n, n, A2 or 'wn0', A1 or 'wm1')
+                                out.append(('windows|%s|%s,%s|cb2=%s|cb1=%s|sel=%d|args=%d' % (mname, x, y, A2, A1, i, len(args)), text, 'wr%d' % n, actual, args))
+    return out
+
+
+def _window_chunk(args):
+    (progs,) = args
+    steps = [{'feed': WIN_DECLS + 'fn wnone<T>(x: T)->Optional<T>{ if(false, some(x), none()) }\n'}] + [{'feed': t} for l, t, b, a, g in progs]
+    job = {'id': 0, 'limits': {'depth': 400}, 'steps': steps}
+    rep = run_job(job, timeout=60.0)
+    if 'fatal' in rep:
+        if len(progs) == 1:
+            return [('fatal:' + rep['fatal'], None)]
+        h = len(progs) // 2
+        return _window_chunk((progs[:h],)) + _window_chunk((progs[h:],))
+    rs = rep['replies']
+    if 'ok' not in rs[0]['v']:
+        raise Machinery('window declarations rejected: %r' % rs[0]['v'])
+    verdict = ['ok' if 'ok' in r['v'] else ('cerr' if 'cerr' in r['v'] else 'panic:' + repr(r['v'])[:200]) for r in rs[1:1 + len(progs)]]
+    out = []
+    for p, vd in zip(progs, verdict):
+        if vd != 'ok':
+            out.append((vd, None)); continue
+        # each accepted program runs on its own: a panic of one must not hide the others
+        j = {'id': 0, 'limits': {'depth': 400}, 'steps': [steps[0], {'feed': p[1]}, {'op': 'inst'}, {'op': 'get', 'name': p[2]}]}
+        r = run_job(j, timeout=30.0)
+        if 'fatal' in r:
+            out.append(('fatal:' + r['fatal'], None)); continue
+        inst = r['replies'][2]['v']
+        if 'ok' not in inst:
+            out.append(('inst:' + repr(decode(inst))[:200], None)); continue
+        out.append(('ok', decode(r['replies'][3]['v'])))
+    return out
+
+
 # ----------------------------------------------------------------------------- C. library surface
 def probed(src, ret):
     """the call followed by an operation that needs the result to be well-formed at its static type: an integer that is zero must compare
@@ -526,7 +604,7 @@ def run(tier):
                  '(depth 1 quick / 2 thorough) flowing through 10 positions; B: generic calls with argument-returning bodies, inferred-type '
                  'forms, calls through function values, compound construction; C: every static library overload on type-directed pools '
                  '(arity<=3), without limits and under tight limits; D: compiling single-token mutants of shipped scripts / book examples, '
-                 'instantiated and main run under limits; oracle: no panic / abort / hang / internal error, value shape = static type')
+                 'instantiated and main run under limits; E: pairs of callable values with different arity windows (named functions and lambdas with optional parameters, callable parameters) meeting in array / if / generic / optional / tuple positions, the selected one called with 0..3 arguments against the value its definition gives; oracle: no panic / abort / hang / internal error, value shape = static type')
     # A + B
     flows = flow_programs(tier)
     derived = derived_programs(tier)
@@ -591,6 +669,28 @@ def run(tier):
             rep.fail(Failure(PROP, sig + '|' + kind, {'text': text, 'eliminators': ['let u_%s = %s;' % (b, use(t, b)) for b, t in uses]}, 'the value can be consumed at its static type', why,
                              {'id': 0, 'limits': {'depth': 400}, 'steps': [{'feed': T.DECLS + EXTRA_DECLS + pre}, {'feed': text}] + [{'feed': 'let u_%s = %s;' % (b, use(t, b))} for b, t in uses] +
                               [{'op': 'inst'}] + [{'op': 'get', 'name': 'u_' + b} for b, t in uses]}))
+    # E
+    wins = window_programs(tier)
+    rep.bounds['arity_window_programs'] = len(wins)
+    wres = []
+    for part in pmap(_window_chunk, [(w,) for w in chunks(wins, 120)]):
+        wres += part
+    for (label, text, b, actual, args), (vd, val) in zip(wins, wres):
+        rep.evaluations += 1
+        sig = 'C01|' + label
+        job = {'id': 0, 'limits': {'depth': 400}, 'steps': [{'feed': WIN_DECLS + 'fn wnone<T>(x: T)->Optional<T>{ if(false, some(x), none()) }\n'}, {'feed': text}, {'op': 'inst'}, {'op': 'get', 'name': b}]}
+        if vd == 'cerr':
+            rep.outcome('window-rejected'); continue
+        rep.nontrivial.add(sig)
+        want = win_value(actual, args)
+        if vd != 'ok':
+            rep.outcome('crash')
+            rep.fail(Failure(PROP, sig + '|accepted-then-' + vd.split(':')[0], {'text': text}, 'rejected, or the value %r' % (want,), vd, job))
+            continue
+        rep.outcome('window-ran')
+        if want is None or val != want:
+            rep.fail(Failure(PROP, sig + ('|called-outside-its-arity' if want is None else '|wrong-value'), {'text': text, 'called': actual, 'args': list(args)},
+                             'rejected' if want is None else repr(want), repr(val)[:200], job))
     # C
     lib = library_cases(tier)
     rep.bounds['library_calls'] = len(lib)
